@@ -280,8 +280,6 @@ func (s *spec) render() string {
 			head += " WITH n, count(*) AS c"
 		case "aggwhere":
 			head += " WITH n, count(*) AS c WHERE c > 0"
-		case "collect":
-			head += " WITH collect(n) AS c"
 		}
 	}
 	return head + " " + tailText
@@ -577,9 +575,6 @@ func (s *spec) valid() bool {
 		if s.distinct && s.proj != "" {
 			return false
 		}
-		if s.with == "collect" {
-			return false
-		}
 	}
 	if s.with == "agg" || s.with == "aggwhere" {
 		// only n and c survive the WITH
@@ -598,7 +593,61 @@ func (s *spec) valid() bool {
 	if s.pathFn != "" && s.repeat {
 		return false
 	}
+	// every variable an expression mentions must be bound by the reading part
+	bound := map[string]bool{}
+	for _, v := range s.vars() {
+		bound[v] = true
+	}
+	texts := append([]string{s.proj, s.update, s.order}, s.where...)
+	for _, t := range texts {
+		for _, v := range refs(t) {
+			if !bound[v] {
+				return false
+			}
+		}
+	}
 	return true
+}
+
+// refs returns the pattern variables (m r o x u p) an expression text mentions; property keys (after '.'), parameter
+// names (after '$'), kinds (after ':') and string contents are not variables.
+func refs(text string) []string {
+	var out []string
+	inStr := byte(0)
+	for i := 0; i < len(text); i++ {
+		c := text[i]
+		if inStr != 0 {
+			if c == inStr {
+				inStr = 0
+			}
+			continue
+		}
+		if c == '\'' || c == '"' {
+			inStr = c
+			continue
+		}
+		if !isWord(c) {
+			continue
+		}
+		j := i
+		for j < len(text) && isWord(text[j]) {
+			j++
+		}
+		word := text[i:j]
+		prev := byte(' ')
+		if i > 0 {
+			prev = text[i-1]
+		}
+		if len(word) == 1 && strings.Contains("mroxup", word) && prev != '.' && prev != '$' && prev != ':' {
+			out = append(out, word)
+		}
+		i = j - 1
+	}
+	return out
+}
+
+func isWord(c byte) bool {
+	return c == '_' || (c >= 'a' && c <= 'z') || (c >= 'A' && c <= 'Z') || (c >= '0' && c <= '9')
 }
 
 func enumerate(k int, opt Options) []Query {
